@@ -1,18 +1,18 @@
 SPECIFICATION SpecNoLook
 CONSTANTS
   Users = {"u1", "u2"}
-  Dirs = {"D3"}
-  Files = {"f3"}
+  Dirs = {"D1", "D2", "D4"}
+  Files = {"f4"}
   Variants = {"exact"}
-  Modes = {"friends", "users"}
-  UserSets = {{}, {"u1"}}
-  BlockSets = {{"up"}}
+  Modes = {"everyone", "friends"}
+  UserSets = {{}}
+  BlockSets = {}
   PhraseSets <- PS_None
-  InitShared = {{"D3"}}
-  FriendUsers = {"u1"}
-  MaxCfg = 3
+  InitShared = {{"D1", "D2", "D4"}, {"D1", "D4"}}
+  FriendUsers = {}
+  MaxCfg = 2
   MaxReq = 1
-  MaxEnv = 1
+  MaxEnv = 0
   UploadSlots = 2
   LockByHolder = TRUE
   FoldExcluded = TRUE
